@@ -271,6 +271,61 @@ theorem sliceVal_list_nat (l : List Val) (a b : Nat) :
   · have h1 : min a l.length = l.length := by omega
     rw [h1, List.drop_eq_nil_of_le (by simp; omega), List.drop_eq_nil_of_le (by simp; omega)]
 
+/-! ### slots and generator helpers -/
+
+theorem lookup_setVar_self (env : Env) (x : String) (v : Val) : lookup (setVar env x v) x = .ok v := by
+  induction env with
+  | nil => simp [setVar, lookup]
+  | cons kv rest ih =>
+    obtain ⟨y, w⟩ := kv
+    simp only [setVar]
+    by_cases h : (y == x) = true
+    · simp [h, lookup]
+    · have hb : (y == x) = false := by simpa using h
+      simp only [hb, Bool.false_eq_true, if_false]
+      simp only [lookup, List.find?, hb] at ih ⊢
+      exact ih
+
+theorem lookup_setVar_ne (env : Env) (x y : String) (v : Val) (h : (x == y) = false) : lookup (setVar env x v) y = lookup env y := by
+  induction env with
+  | nil => simp [setVar, lookup, List.find?, h]
+  | cons kv rest ih =>
+    obtain ⟨z, w⟩ := kv
+    simp only [setVar]
+    by_cases hz : (z == x) = true
+    · have hzx : z = x := by simpa using hz
+      subst hzx
+      simp [hz, lookup, List.find?, h]
+    · have hb : (z == x) = false := by simpa using hz
+      simp only [hb, Bool.false_eq_true, if_false]
+      by_cases hzy : (z == y) = true
+      · simp [lookup, List.find?, hzy]
+      · have hb2 : (z == y) = false := by simpa using hzy
+        simp only [lookup, List.find?, hb2] at ih ⊢
+        exact ih
+
+theorem allM_pure (p : Val → Bool) (xs : List Val) : allM (fun x => .ok (p x)) xs = .ok (xs.all p) := by
+  induction xs with
+  | nil => rfl
+  | cons x xs ih => simp only [allM, bind, Except.bind, ih, List.all_cons]; cases p x <;> simp
+
+theorem anyM_pure (p : Val → Bool) (xs : List Val) : anyM (fun x => .ok (p x)) xs = .ok (xs.any p) := by
+  induction xs with
+  | nil => rfl
+  | cons x xs ih => simp only [anyM, bind, Except.bind, ih, List.any_cons]; cases p x <;> simp
+
+theorem compM_pure (c : Val → Bool) (e : Val → Val) (xs : List Val) :
+    compM (fun x => .ok (c x)) (fun x => .ok (e x)) xs = .ok ((xs.filter c).map e) := by
+  induction xs with
+  | nil => rfl
+  | cons x xs ih => simp only [compM, bind, Except.bind, ih, List.filter_cons]; cases c x <;> simp
+
+theorem firstM_pure (c : Val → Bool) (e : Val → Val) (xs : List Val) :
+    firstM (fun x => .ok (c x)) (fun x => .ok (e x)) xs = .ok ((xs.find? c).map e) := by
+  induction xs with
+  | nil => rfl
+  | cons x xs ih => simp only [firstM, bind, Except.bind, ih, List.find?_cons]; cases c x <;> simp
+
 /-! ### the function-call view -/
 
 /-- what a call of the function `body` with this starting environment gives -/
